@@ -14,7 +14,7 @@ import vivarium  # noqa: registers updaters
 from vivarium.core.store import Store
 from vivarium.library.units import units
 
-LAWS = ['LawAccumulateCommutes', 'LawSetNull', 'LawNonNegative', 'LawUntouched',
+LAWS = ['LawAccumulateCommutes', 'LawSetNull', 'LawNonNegative', 'LawUntouched', 'LawOverrideOnce',
         'LawMerge', 'LawDeepMerge', 'LawUnitsKept']
 
 CARRIERS = {
@@ -76,6 +76,31 @@ def run_scalar(rep, cases, override=False):
                 viol(rep, c['kind'], dict(c, carrier=cname), 'an unmentioned variable changed')
             if not eq(update, before):
                 viol(rep, c['kind'], dict(c, carrier=cname), 'the update object was modified')
+            if override:
+                # a plain update afterwards is combined by the declared updater
+                try:
+                    st.apply_update({'x': car(c['u'])})
+                    got2 = st.get_value()['x']
+                except Exception as e:
+                    viol(rep, c['kind'], dict(c, carrier=cname, second=True), 'raised %r' % (e,))
+                    continue
+                if not eq(got2, car(c['out2'])):
+                    viol(rep, c['kind'], dict(c, carrier=cname, second=True),
+                         'after an update naming updater %s, a plain update gives %r; the '
+                         'declared updater %s gives %r' % (c['g'], got2, c['f'], car(c['out2'])))
+                # the same two updates in one _multi_update batch
+                st2 = make({'x': {'_default': car(c['v']), '_updater': c['f']}})
+                try:
+                    st2.apply_update({'x': {'_multi_update': [
+                        {'_value': car(c['u']), '_updater': c['g']}, car(c['u'])]}})
+                    got3 = st2.get_value()['x']
+                except Exception as e:
+                    viol(rep, c['kind'], dict(c, carrier=cname, batch=True), 'raised %r' % (e,))
+                    continue
+                if not eq(got3, car(c['out2'])):
+                    viol(rep, c['kind'], dict(c, carrier=cname, batch=True),
+                         'the batch [update naming %s, plain update] gives %r, specification %r'
+                         % (c['g'], got3, car(c['out2'])))
         if c['v'] + c['u'] < 0 or override:
             rep.nontrivial.add(json.dumps(c, sort_keys=True))
 
